@@ -9,6 +9,8 @@ import (
 	"fmt"
 	"slices"
 	"strings"
+	"sync"
+	"sync/atomic"
 
 	"github.com/c2FmZQ/ech"
 
@@ -197,6 +199,7 @@ func Run(r *ev.Run) {
 		spec ech.ConfigSpec
 	}{
 		{"no-cipher-suites", ech.ConfigSpec{Version: 0xfe0d, ID: 9, KEM: 0x20, PublicKey: pub, PublicName: []byte("a.example")}},
+		{"empty-non-nil-public-key", ech.ConfigSpec{Version: 0xfe0d, ID: 9, KEM: 0x20, PublicKey: pub[:0], CipherSuites: sl[0], PublicName: []byte("a.example")}},
 		{"empty-cipher-suites", ech.ConfigSpec{Version: 0xfe0d, ID: 9, KEM: 0x20, PublicKey: pub, CipherSuites: []ech.CipherSuite{}, PublicName: []byte("a.example")}},
 		{"version-0", ech.ConfigSpec{ID: 9, KEM: 0x20, PublicKey: pub, CipherSuites: sl[0], PublicName: []byte("a.example")}},
 		{"version-fe0c", ech.ConfigSpec{Version: 0xfe0c, ID: 9, KEM: 0x20, PublicKey: pub, CipherSuites: sl[0], PublicName: []byte("a.example")}},
@@ -573,6 +576,50 @@ func Run(r *ev.Run) {
 		}
 	}
 
+	// ---- 3d. SUPPLEMENTARY (free-running goroutines: a sample of schedules, not an exploration; reported separately): the codec's
+	// functions are pure, so eight goroutines that parse / encode different configs at the same time must each get what a
+	// sequential call gets. (Package-level scratch memory is plain memory: no scheduling point a controlled scheduler could use.) ----
+	{
+		const workers, iters = 8, 4000
+		var cfgs []ech.Config
+		var wantSpec []ech.ConfigSpec
+		for i := 0; i < workers; i++ {
+			c := mk(byte(i+1), fmt.Sprintf("w%d.example", i), sl[(i*7)%len(sl)])
+			sp, err := c.Spec()
+			if err != nil {
+				ev.ToolError("c11: %v", err)
+			}
+			cfgs, wantSpec = append(cfgs, c), append(wantSpec, sp)
+		}
+		var wg sync.WaitGroup
+		var bad atomic.Int64
+		var firstBad atomic.Value
+		for w := 0; w < workers; w++ {
+			wg.Add(1)
+			go func(w int) {
+				defer wg.Done()
+				for i := 0; i < iters; i++ {
+					sp, err := cfgs[w].Spec()
+					enc, err2 := wantSpec[w].Bytes()
+					if err != nil || err2 != nil || !specEqual(sp, wantSpec[w]) || !bytes.Equal(enc, cfgs[w]) {
+						if bad.Add(1) == 1 {
+							firstBad.Store(fmt.Sprintf("goroutine %d, iteration %d: Spec() = %+v (want %+v) err=%v; Bytes() equal=%v err=%v", w, i, sp, wantSpec[w], err, bytes.Equal(enc, cfgs[w]), err2))
+						}
+						return
+					}
+				}
+			}(w)
+		}
+		wg.Wait()
+		oc := "concurrent-codec-calls-agree"
+		if bad.Load() > 0 {
+			oc = "concurrent-codec-calls-DISAGREE"
+			r.Violation("concurrent-use:codec-result-differs", "eight goroutines parsing and encoding DIFFERENT configs at the same time: "+firstBad.Load().(string), nil)
+		}
+		r.Eval("concurrent-codec", oc)
+		r.Set("supplementary_concurrent_calls", workers*iters*2)
+	}
+
 	// ---- 4. parser robustness: truncations, substitutions, garbage ----
 	list3, _ := ech.ConfigList(poolCfg[:3])
 	var parserInputs int64
@@ -607,6 +654,44 @@ func Run(r *ev.Run) {
 		parse(fmt.Sprintf("stray-bytes-in-body-%d", n), l, true)
 	}
 	parse("garbage-after", append(append([]byte{}, list3...), 0xaa), false) // tolerated or not: not fixed by the property; only no panic
+	// "never reads beyond declared lengths": whatever follows the declared list - a byte, 65536 bytes of well-formed configs (a
+	// length comparison done in 16 bits would not see them), 65535, 131072 - the configs returned are those INSIDE the declared
+	// length, or the input is refused
+	{
+		filler := mk(200, "filler.example", sl[0])
+		for _, extraLen := range []int{1, 65535, 65536, 65537, 131072} {
+			// the extra bytes are well-formed configs from the first to the last byte (the last one sized to fit)
+			var extra []byte
+			for extraLen-len(extra) > 400 {
+				extra = append(extra, filler...)
+			}
+			if rem := extraLen - len(extra); rem >= 60 {
+				spec := ech.ConfigSpec{Version: 0xfe0d, ID: 201, KEM: 0x20, PublicKey: tlsref.DetBytes("k", 10), CipherSuites: sl[0], PublicName: []byte("last.example")}
+				c0, _ := spec.Bytes()
+				spec.PublicKey = tlsref.DetBytes("k", 10+rem-len(c0))
+				c, err := spec.Bytes()
+				if err != nil || len(c) != rem {
+					ev.ToolError("c11: cannot size the last config to %d bytes (%d, %v)", rem, len(c), err)
+				}
+				extra = append(extra, c...)
+			} else {
+				extra = append(extra, make([]byte, rem)...)
+			}
+			in := append(append([]byte{}, list3...), extra...)
+			guard(r, fmt.Sprint("parse:beyond-declared-length:", extraLen), extraLen, func() {
+				specs, err := ech.ParseConfigList(in)
+				oc := "beyond-declared-length -> refused"
+				if err == nil {
+					oc = "beyond-declared-length -> ignored"
+					if len(specs) != 3 {
+						oc = "beyond-declared-length -> READ"
+						r.Violation("parse-reads-beyond-declared-length", fmt.Sprintf("a list that declares %d bytes (3 configs) followed by %d more bytes parses into %d configs (last id %d): bytes beyond the declared length were read", len(list3)-2, extraLen, len(specs), specs[len(specs)-1].ID), extraLen)
+					}
+				}
+				r.Eval(fmt.Sprint("beyond:", extraLen), oc)
+			})
+		}
+	}
 	// single config, every strict prefix through Config.Spec
 	one := poolCfg[1]
 	for n := 0; n < len(one); n++ {
